@@ -47,7 +47,7 @@ def _options(buf):
     return o
 
 
-TOK = {n: ('TOK-%s-out' % n, 'TOK-%s-err' % n, ('TOK-%s-out\n' % n).encode(), 'LATE-%s-out' % n, 'LATE-%s-err' % n) for n in ('t0', 't1', 't2')}   # built at import, untraced
+TOK = {n: ('TOK-%s-out' % n, 'TOK-%s-err' % n, ('TOK-%s-out\n' % n).encode(), 'LATE-%s-out' % n, 'LATE-%s-err' % n) for n in ('t0', 't1', 't2', 'tz')}   # built at import, untraced
 
 
 def writer(pattern):
@@ -118,22 +118,34 @@ def oracle(S, names, kinds, pats, buf, ids, orig):
     return None
 
 
-def streams(n, k0, k1, k2, p0, p1, p2, buf):
+class _Folder:
+    def __truediv__(self, other):
+        return self
+
+    def mkdir(self, *a, **k):
+        pass
+
+
+def streams(n, k0, k1, k2, p0, p1, p2, buf, kbd=False, xml=False):
     global LAST
     W.reset()
     n = ci(n, 1, 3)
-    buf = cb(buf)
+    buf, kbd, xml = cb(buf), cb(kbd), cb(xml)
     kinds = [ci(k, 0, 16) for k in (k0, k1, k2)[:n]]
     pats = [ci(p, 0, 5) for p in (p0, p1, p2)[:n]]
     names = ['t0', 't1', 't2'][:n]      # literal names: '%'-formatting under CrossHair yields lazily symbolic strings
     with untraced():
         L = W.mk_layer('L', (), hooks='ST')
         tests = [W.mk_test(nm, k, out=writer(p), late=late_writer) for nm, k, p in zip(names, kinds, pats)]
+        if kbd:          # a last test that is interrupted from the keyboard after it wrote to both streams
+            tests.append(W.mk_test('tz', W.KBD, out=writer(W_BOTH)))
         suite = unittest.TestSuite(tests)
         raw = KeepBytes()
         out = TextOut(raw, encoding='utf-8', write_through=True)
         err = TextOut(raw, encoding='utf-8', write_through=True)
     o = _options(buf)
+    if xml:          # --xml: the report wrapper sits between the result and the console formatter
+        o.output = FM.XMLOutputFormattingWrapper(o.output, folder=_Folder())
     lname = name_from_layer(L)
     saved = (sys.stdout, sys.stderr)
     sys.stdout, sys.stderr = out, err
@@ -141,6 +153,8 @@ def streams(n, k0, k1, k2, p0, p1, p2, buf):
     try:
         try:
             R.run_tests(o, suite, lname, [], [], [], [])
+        except KeyboardInterrupt:
+            escaped = None if kbd else 'KeyboardInterrupt'
         except Exception as e:         # C04's subject; here it makes the oracle fail
             escaped = type(e).__name__
         end = ('end', sys.stdout, sys.stderr)
@@ -152,7 +166,7 @@ def streams(n, k0, k1, k2, p0, p1, p2, buf):
         why = oracle(S, names, kinds, pats, buf, ids, (out, err))
         if escaped and not why:
             why = 'exception escaped: ' + escaped
-    LAST = (tuple(kinds), tuple(pats), buf, why, escaped)
+    LAST = (tuple(kinds), tuple(pats), buf, why, escaped, kbd, xml)
     return why is None
 
 
@@ -161,13 +175,13 @@ def streams_reach(*a):
     return LAST[3] is None and LAST[2] and W.FAIL in LAST[0] and LAST[1][0] == W_BOTH
 
 
-_P = [('n', 'int'), ('k0', 'int'), ('k1', 'int'), ('k2', 'int'), ('p0', 'int'), ('p1', 'int'), ('p2', 'int'), ('buf', 'bool')]
+_P = [('n', 'int'), ('k0', 'int'), ('k1', 'int'), ('k2', 'int'), ('p0', 'int'), ('p1', 'int'), ('p2', 'int'), ('buf', 'bool'), ('kbd', 'bool'), ('xml', 'bool')]
 _C = ', '.join(n for n, _ in _P)
 _B = '1 <= n <= 3 and ' + ' and '.join('0 <= k%d <= 16 and 0 <= p%d <= 5' % (i, i) for i in range(3))
 
 
 def _v(**kw):
-    v = dict(n=2, k0=1, k1=0, k2=0, p0=4, p1=1, p2=0, buf=True)
+    v = dict(n=2, k0=1, k1=0, k2=0, p0=4, p1=1, p2=0, buf=True, kbd=False, xml=False)
     v.update(kw)
     return v
 
@@ -186,13 +200,13 @@ SPEC = {
     'harnesses': [
         {'name': 'streams', 'fn': 'streams', 'params': _P, 'call': _C,
          # quick: 2 tests, all 17x17 kinds, write pattern of the second test fixed to print()
-         'bounds': {'quick': _B + ' and n <= 2 and p1 == 1 and k2 == 0 and p2 == 0',
-                    'thorough': _B + ' and (n <= 2 or (p1 == 1 and p2 == 1 and buf))'},
+         'bounds': {'quick': _B + ' and n <= 2 and p1 == 1 and k2 == 0 and p2 == 0 and (not kbd or (n == 1 and p0 == 4)) and (not xml or (buf and n == 1))',
+                    'thorough': _B + ' and (n <= 2 or (p1 == 1 and p2 == 1 and buf and not kbd and not xml))'},
          'slices': {'quick': ['k0 == %d and %s' % (k, b) for k in range(17) for b in ('buf', 'not buf')],
                     'thorough': ['k0 == %d and n == %d and %s' % (k, n, b) for k in range(17) for n in (1, 2, 3) for b in ('buf', 'not buf')]},
          'reach': 'streams_reach', 'reach_bounds': {'quick': _B + ' and n == 2 and p1 == 1 and k2 == 0 and p2 == 0 and buf and p0 == 4',
                                                     'thorough': _B + ' and n == 2 and p1 == 1 and k2 == 0 and p2 == 0 and buf and p0 == 4'},
          'timeout': {'quick': 240, 'thorough': 850},
-         'fidelity': [_v(), _v(k0=6, p0=1), _v(k0=16, k1=15, p0=4), _v(n=3, k0=7, k1=4, k2=9, p0=2, p1=5, p2=3), _v(buf=False, k0=5, p0=5)]},
+         'fidelity': [_v(), _v(k0=6, p0=1), _v(k0=16, k1=15, p0=4), _v(n=1, kbd=True), _v(n=1, k0=2, p0=3, xml=True), _v(n=3, k0=7, k1=4, k2=9, p0=2, p1=5, p2=3), _v(buf=False, k0=5, p0=5)]},
     ],
 }
